@@ -39,6 +39,10 @@ def worlds(tier, seed):
                 k += 1
                 out.append(dict(engines=list(eng), gens=1 + k % 2, Mh=3, seed=s + k % 3, sprout={"kind": sk, "L": 2}, hib=hib, drive="run",
                                 obj=("twofunnel", "sphere_in", "plateau")[k % 3], maximize=bool((k // 5) % 2), request_probe=False))
+    # random_seed = 0 is a seed like any other
+    for eng in [e for e in shapes_h2() if e[1].startswith("CMA")] + [("SEA",), ("LHS", "SOB"), ("DE", "SHADE")]:
+        k += 1
+        out.append(dict(engines=list(eng), gens=1 + k % 2, Mh=3, seed=0, sprout={"kind": ("simple", "nbc")[k % 2], "L": 2}, hib=bool(k % 2), drive="run", request_probe=False))
     # an objective that is undefined (NaN) on part of the box: NaN/NaN comparisons are settled by Python's
     # `random`, which the tree constructor seeds as well
     for eng in [e for e in shapes_h1() + shapes_h2() if not any(v.startswith("CMA") or v == "LOC" for v in e)][:: (1 if tier == "thorough" else 3)]:
@@ -136,11 +140,13 @@ def run_unit(unit):
     else:
         s = 1 + unit["seed"] % 1000
         for box in ("B_asym", "B_dec"):
-            for kw in ({"maxfun": 90}, {"maxiter": 3}):
+            for kw in ({"maxfun": 90}, {"maxiter": 3}, {"maxfun": 150, "seed0": True}):
                 outs = []
+                kw = dict(kw)
+                sd = 0 if kw.pop("seed0", False) else s
                 for st in (0, 1, 2):
                     prior_state(st)
-                    cf, r = minimize_run(box, "twofunnel", s, **kw)
+                    cf, r = minimize_run(box, "twofunnel", sd, **kw)
                     outs.append((hashlib.sha256(b"".join(cf.calls)).hexdigest(), np.asarray(r.x).tobytes().hex(), r.fun, r.nfev, r.nit))
                     res.executions += 1
                     res.by_bound[0] += 1
